@@ -1,6 +1,6 @@
 #!/bin/sh
 # every hand-written mutant and every seeded change at several seeds; prints the ones a quick run misses at some seed
-cd /verif; mkdir -p .work
+cd "$(dirname "$0")/.." || exit 2; mkdir -p .work
 for s in ${SEEDS:-2 3 4}; do
   VERIF_SEED=$s /venv/bin/python tools/sensitivity.py 2>&1 | grep -E "MISSED|HARNESS|PATTERN" | sed "s/^/seed=$s mutant /" | cut -c1-200
   VERIF_SEED=$s VERIF_NO_RECORD=1 /venv/bin/python tools/seeded.py run 2>&1 | grep -E "MISSED|HARNESS" | sed "s/^/seed=$s seeded /" | cut -c1-200
